@@ -17,7 +17,7 @@ open Finset BigOperators Matrix
 set_option linter.unusedSectionVars false
 
 namespace GT.C15
-open GT
+open GT GT.Targets GT.Reflect
 
 section field
 variable {K : Type*} [Field K] {n : ℕ}
